@@ -443,3 +443,42 @@ func (l *lineReader) NextGood() (string, error) {
 		}
 	}
 }
+
+// clean:DI.CONST a trimmed, non-empty line has a first field.
+func FirstWordTrimmed(raw string) string {
+	line := strings.TrimSpace(raw)
+	if len(line) == 0 {
+		return ""
+	}
+	if strings.Fields(line)[0] == "comment" {
+		return "c"
+	}
+	return line
+}
+
+// want:DI.CONST the line is not trimmed: "  " is non-empty and has no field.
+func FirstWordUntrimmed(raw string) string {
+	if len(raw) == 0 {
+		return ""
+	}
+	return strings.Fields(raw)[0]
+}
+
+// clean:DI.COUNTER the counted loop runs to len(rec), which was tested against the array length.
+func FourCounted(rec []string) (res [4]float64) {
+	if len(rec) != 4 {
+		return res
+	}
+	for i := 0; i < len(rec); i++ {
+		res[i], _ = strconv.ParseFloat(rec[i], 64)
+	}
+	return res
+}
+
+// want:DI.COUNTER nothing bounds len(rec) by the array length.
+func FourCountedBad(rec []string) (res [4]float64) {
+	for i := 0; i < len(rec); i++ {
+		res[i], _ = strconv.ParseFloat(rec[i], 64)
+	}
+	return res
+}
